@@ -3,7 +3,7 @@
 From Coq Require Import List Arith Bool NArith.
 From GV Require Import Base.Result Gen.TokenTypes Gen.Defs Gen.Instr Model.Parser Model.BuilderWL Model.Compile
   Spec.Depth Proofs.C05.Known Proofs.C05.Bounded Proofs.C06.Known Proofs.C06.DepthSound Proofs.C06.Dynamic
-  Proofs.C06.Bounded Proofs.C06.Bounded7 Proofs.C06.Refuted.
+  Proofs.C06.Bounded Proofs.C06.Bounded7 Proofs.C06.Refuted Proofs.C06.Balanced Proofs.C06.BalancedBounded.
 Import ListNotations.
 
 Lemma C06_static_triples_bounded_3_proof : forall a b c init, In init inits -> built_typable [a; b; c] init.
@@ -38,3 +38,14 @@ Proof. exact (conj K1_untypable K1_machine_stuck). Qed.
 
 Lemma C06_K2_refuted_proof : untypable_witness k2_toks has_empty_value = true /\ untypable_witness k2b_toks has_empty_value = true.
 Proof. exact (conj K2_untypable K2b_untypable). Qed.
+
+Lemma C06_balanced_covers_triples_bounded_3_proof : forall a b c, accepted_balanced [a; b; c].
+Proof. intros a b c. exact (check_bal_meaning _ (triples_check_bal a b c)). Qed.
+
+Lemma C06_balanced_covers_reduced_bounded_5_proof : forall toks,
+  length toks <= 5 -> (forall x, In x toks -> In x reduced_alphabet) -> accepted_balanced toks.
+Proof. intros toks Hl Ha. exact (check_bal_meaning _ (reduced_check_bal toks Hl Ha)). Qed.
+
+Lemma C06_balanced_covers_small_bounded_7_proof : forall toks,
+  length toks = 7 -> (forall x, In x toks -> In x small_alphabet) -> accepted_balanced toks.
+Proof. intros toks Hl Ha. exact (check_bal_meaning _ (small_check_bal toks Hl Ha)). Qed.
